@@ -582,12 +582,12 @@ impl WriterProp {
     fn runs_for(&self, tier: Tier) -> u64 {
         let dbg = cfg!(debug_assertions);
         match (self.c14, tier, dbg) {
-            (false, Tier::Quick, true) => 200_000,
-            (false, Tier::Quick, false) => 100_000,
+            (false, Tier::Quick, true) => 800_000,
+            (false, Tier::Quick, false) => 400_000,
             (false, Tier::Thorough, true) => 40_000_000,
             (false, Tier::Thorough, false) => 30_000_000,
-            (true, Tier::Quick, true) => 100_000,
-            (true, Tier::Quick, false) => 50_000,
+            (true, Tier::Quick, true) => 400_000,
+            (true, Tier::Quick, false) => 200_000,
             (true, Tier::Thorough, true) => 12_000_000,
             (true, Tier::Thorough, false) => 4_000_000,
         }
